@@ -77,7 +77,12 @@ impl PanicInfo {
     pub fn signature(&self) -> String {
         let mut msg = String::new();
         let mut last_digit = false;
-        for c in self.message.chars() {
+        // drop quoted user data (string contents) from the message
+        let head = match self.message.find(|c| c == '`' || c == '\'' || c == '"') {
+            Some(i) => &self.message[..i],
+            None => &self.message[..],
+        };
+        for c in head.chars() {
             if c.is_ascii_digit() {
                 if !last_digit {
                     msg.push('#');
